@@ -43,6 +43,13 @@ def gen(tier, rnd):
             if "exec" in s and inp != "pipe":
                 s["exec"]["during"] = False
         cases.append({"opts": o, "steps": steps, "input": inp, "const_view": rnd.random() < 0.4})
+    # the same (already painted) view through several consecutive execs from the alt screen: nothing may be painted
+    # while a command runs, the second and third time either
+    for _ in range(3 if tier == "quick" else 20):
+        steps = []
+        for k in range(3):
+            steps.append({"exec": {"cb": False, "ok": True, "during": False}})
+        cases.append({"opts": {"alt": True}, "steps": steps, "input": rnd.choice(["pipe", "none"]), "const_view": True})
     # type-ahead: a burst of keys is read at once, an early one makes Update start the external command; the later
     # keys and what is typed after the command must still arrive
     for _ in range(4 if tier == "quick" else 40):
@@ -118,6 +125,14 @@ def analyse(c, r):
     for k, (e, b, en) in enumerate(zip(execs, begins, ends)):
         if en["outlen"] != b["outlen"]:
             probs.append(("wrote-during", "%d bytes were written to the output while external command %d ran: %r" % (en["outlen"] - b["outlen"], k, out_b[b["outlen"]:en["outlen"]][:60])))
+        # ... and nothing after the terminal was put back in order for the command either: once restoreTerminalState has
+        # written its resets (the mouse-SGR reset is always among them) only control sequences may follow
+        k0 = out_b.rfind(b"\x1b[?1006l", 0, b["outlen"])
+        if k0 >= 0:
+            import re as _re
+            residue = _re.sub(rb"\x1b\[[0-9;?]*[A-Za-z]", b"", out_b[k0:b["outlen"]])
+            if residue.strip(b"\r\n") != b"":
+                probs.append(("painted-after-handover", "after the terminal had been restored for external command %d, and before it started, %r was painted on it" % (k, residue[:40])))
         if e["during"] and en.get("read") != [120, 121, 122]:
             probs.append(("input-stolen", "input that arrived while command %d ran was not left for it: the command read %s" % (k, en.get("read"))))
         if any(kk.startswith("key:") and any(ch in kk[4:] for ch in "xyz") for kk in keys):
